@@ -207,6 +207,7 @@ PROPS["C19"] = {
         rapid("confinement", "webserver", "TestVerif_C19_Confinement", 1500, 12000, quick_shards=4),
         rapid("admitted-usernames", "group", "TestVerif_C19_AdmittedUsernames", 3000, 30000),
         rapid("description-store", "group", "TestVerif_C19_DescriptionStore", 3000, 30000),
+        rapid("group-registry", "group", "TestVerif_C19_GroupRegistry", 1500, 12000),
     ],
     "technique": "property-based testing (rapid): reference predicate for the validators; hostile usernames through every login route (password, wildcard, stateful and signed tokens) into AddClient; hostile request targets over raw TCP against the real server with sentinel files outside the roots",
     "assumptions": ["Linux path semantics (filepath.Separator == '/')", "symlinks placed inside the roots by the operator are not a client-supplied name"],
